@@ -330,7 +330,11 @@ func pipelineExec(r *R, prog *pnode, plan *faultPlan, sc *pScript, checkLazy boo
 	switch sc.mode {
 	case "iterate":
 		ended := 0
-		for call := 0; call < 400; call++ {
+		// (every other call may be made with an expired context first, so a program with a few
+		// hundred outputs needs twice as many calls; a stream that never ends is cut by the limit)
+		const callLimit = 2*runawayLimit + 100
+		call := 0
+		for ; call < callLimit; call++ {
 			if len(res.outs) == sc.abandonAt && ended == 0 {
 				res.abandoned = true
 				r.Fault("consumer_abandon")
@@ -399,6 +403,9 @@ func pipelineExec(r *R, prog *pnode, plan *faultPlan, sc *pScript, checkLazy boo
 			}
 			res.term = err
 			break
+		}
+		if call >= callLimit {
+			res.term = errRunaway
 		}
 		task.Label = "consumer Close on " + prog.op
 		s.Close()
